@@ -296,3 +296,170 @@ def layered_schema(rng):
         return SchemaInfo(Schema(copy.deepcopy(spec)), "random")
     except Exception:  # noqa: BLE001
         return None
+
+
+# ---------------------------------------------------------------------------------------------
+# construction of a schema from its spec: the real constructor against lean/PM/SchemaCompile.lean
+
+def compile_outcome(spec):
+    """('ok', Schema) | (kind, message): what `Schema(spec)` does, the refusals classified by exception class and message
+    (the kinds of `CompileErr`); 'content' = a SyntaxError of the content-expression parser, 'other:…' = anything else"""
+    try:
+        return "ok", Schema(copy.deepcopy(spec))
+    except ValueError as e:
+        m = str(e)
+        if m.startswith("Schema is missing its top node type"):
+            return "missingTop", m
+        if m.startswith("every schema needs a 'text' type"):
+            return "missingText", m
+        if m.startswith("the text node type should not have attributes"):
+            return "textAttrs", m
+        if m.endswith("can not be both a node and a mark"):
+            return "nameClash", m
+        return "other:ValueError", m
+    except SyntaxError as e:
+        m = str(e)
+        if m.startswith("unknow mark type"):
+            return "unknownMark", m
+        return "content", m
+    except Exception as e:  # noqa: BLE001
+        return "other:" + type(e).__name__, str(e)
+
+
+def spec_dfas(spec):
+    """the content automata of the node types of a spec that `Schema()` refuses, produced by the real parser
+    (`NodeType.compile` + `ContentMatch.parse`) without the rest of the constructor; [] when the node table itself is
+    refused (no content expression is ever parsed then); None when some content expression does not parse"""
+    from prosemirror.model.content import ContentMatch
+    from prosemirror.model.schema import NodeType
+
+    from .codec import dump_dfa
+    stub = Schema.__new__(Schema)
+    stub.spec = spec
+    try:
+        nodes = NodeType.compile(spec["nodes"], stub)
+    except ValueError:
+        return []
+    nid = {n: i for i, n in enumerate(nodes)}
+    out = []
+    for t in nodes.values():
+        try:
+            cm = ContentMatch.parse(t.spec.get("content", ""), nodes)
+        except SyntaxError:
+            return None
+        out.append(dump_dfa(cm, nid))
+    return out
+
+
+def compile_tie(spec, compiled=None):
+    """(request, expected answer, kind) for the model of `Schema(spec)`: the compiled tables of the real object, every
+    field (`SchemaInfo.dump()`), or the kind of refusal.  None when the spec has a content expression the parser refuses
+    (the automata are an input of the model)."""
+    from .codec import spec_dump
+    if compiled is not None:
+        kind, got = "ok", compiled
+    else:
+        kind, got = compile_outcome(spec)
+    if kind == "content":
+        return None
+    if kind == "ok":
+        dump = SchemaInfo(got, "compiled").dump()
+        return {"op": "compileSchema", "spec": spec_dump(spec), "dfas": [n["dfa"] for n in dump["nodes"]]}, dump, kind
+    dfas = spec_dfas(copy.deepcopy(spec))
+    if dfas is None:
+        return None
+    return {"op": "compileSchema", "spec": spec_dump(spec), "dfas": dfas}, {"err": kind}, kind
+
+
+def mutate_spec(rng, spec):
+    """a variant of a spec around the corners of the constructor: words that are mark names and group names at once, a mark
+    called "_", doubled / trailing spaces in expressions and groups, unknown names, node/mark name clashes, missing or
+    renamed top / text types, attributes on text, white-space-only and zero-repetition content.  Returns (spec, labels)."""
+    spec = {"nodes": {k: dict(v) for k, v in spec["nodes"].items()},
+            "marks": {k: dict(v) for k, v in (spec.get("marks") or {}).items()},
+            **({"topNode": spec["topNode"]} if "topNode" in spec else {})}
+    nodes, marks = spec["nodes"], spec["marks"]
+    labels = []
+    for _ in range(rng.randint(1, 3)):
+        mnames, nnames = list(marks), list(nodes)
+        groups = sorted({g for v in marks.values() for g in (v.get("group") or "").split(" ") if g})
+        k = rng.choice(["mark_", "name-is-group", "spaces-expr", "spaces-group", "unknown-excl", "unknown-marks", "clash",
+                        "no-text", "top", "text-attrs", "ws-content", "zero-content", "underscore-word", "drop-marks",
+                        "node-marks", "empty-group", "excl-variants", "attrs"])
+        if k == "mark_":
+            marks["_"] = {"group": "u"} if rng.random() < 0.5 else {}
+        elif k == "name-is-group" and mnames:
+            g = rng.choice(groups) if groups and rng.random() < 0.7 else "grp"
+            marks[g] = rng.choice([{}, {"excludes": g}, {"group": g}])
+            if rng.random() < 0.5:
+                marks[rng.choice(mnames)]["group"] = g
+        elif k == "spaces-expr" and mnames:
+            words = [rng.choice(mnames + groups + ["_"]) for _ in range(rng.randint(1, 3))]
+            e = rng.choice([" ", "  "]).join(words) + rng.choice(["", " ", "  "])
+            if rng.random() < 0.3:
+                e = " " + e
+            if rng.random() < 0.7:
+                # a group string with a doubled / trailing space has the empty word among its groups
+                marks[rng.choice(mnames)]["group"] = rng.choice(["grp ", " g2", "grp  g2"])
+            if rng.random() < 0.5:
+                marks[rng.choice(mnames)]["excludes"] = e
+            else:
+                nodes[rng.choice(nnames)]["marks"] = e
+        elif k == "spaces-group" and mnames:
+            marks[rng.choice(mnames)]["group"] = rng.choice(["grp ", " grp", "grp  g2", " ", "g2 ", "grp g2 "])
+        elif k == "unknown-excl" and mnames:
+            marks[rng.choice(mnames)]["excludes"] = rng.choice(["nosuch", "m0 nosuch", "nosuch _", "_ nosuch"])
+        elif k == "unknown-marks":
+            nodes[rng.choice(nnames)]["marks"] = rng.choice(["nosuch", "m0 nosuch", "_ nosuch", "nosuch _"])
+        elif k == "clash":
+            if rng.random() < 0.5 or not mnames:
+                marks[rng.choice(nnames)] = {}
+            else:
+                nodes[rng.choice(mnames)] = {"content": "text*"}
+        elif k == "no-text":
+            nodes.pop("text", None)
+            if rng.random() < 0.5:
+                for v in nodes.values():
+                    if "text" in (v.get("content") or "") or "inline" in (v.get("content") or ""):
+                        v["content"] = ""
+        elif k == "top":
+            spec["topNode"] = rng.choice(["", "nosuch", "text", "doc"] + nnames)
+            if rng.random() < 0.3:
+                nodes.pop("doc", None)
+        elif k == "text-attrs" and "text" in nodes:
+            nodes["text"]["attrs"] = rng.choice([{"a": {}}, {"a": {"default": 1}}, {}])
+        elif k == "ws-content":
+            nodes[rng.choice(nnames)]["content"] = rng.choice([" ", "  ", "\t", "\n ", "\u2003", "\u00a0 ", "\x1c", ""])
+        elif k == "zero-content":
+            n = rng.choice(nnames)
+            if n != "text":
+                nodes[n]["content"] = rng.choice(["text{0}", "text{0,0}", "(text){0}"])
+        elif k == "underscore-word":
+            e = rng.choice(["_ _", "_ ", " _", "_ m0", "m0 _"])
+            if mnames and rng.random() < 0.5:
+                marks[rng.choice(mnames)]["excludes"] = e
+            else:
+                nodes[rng.choice(nnames)]["marks"] = e
+        elif k == "drop-marks":
+            for m in list(marks)[rng.randint(0, len(marks)):]:
+                del marks[m]
+            if rng.random() < 0.3:
+                spec.pop("marks")
+                marks = {}
+        elif k == "node-marks":
+            nodes[rng.choice(nnames)]["marks"] = rng.choice(["_", "", None] + mnames + groups)
+            if nodes and rng.random() < 0.3:
+                nodes[rng.choice(nnames)].pop("marks", None)
+        elif k == "empty-group" and mnames:
+            marks[rng.choice(mnames)]["group"] = rng.choice(["", None])
+        elif k == "excl-variants" and mnames:
+            marks[rng.choice(mnames)]["excludes"] = rng.choice(["_", "", None] + mnames + groups)
+        elif k == "attrs":
+            tgt = rng.choice([nodes[n] for n in nnames if n != "text"] + list(marks.values()) or [None])
+            if tgt is not None:
+                tgt["attrs"] = rng.choice([None, {}, {"x": {}}, {"x": {"default": None}}, {"x": {"default": [1, "a"]}, "y": {}},
+                                           {"y": {"default": {"k": 1}}, "x": {"default": "s"}}])
+        else:
+            continue
+        labels.append(k)
+    return spec, labels
